@@ -58,7 +58,8 @@ theorem idcStarO_step (hk : SubsetOrder kordf) (hord : PermOrder ordf) (hG : G.W
         firstExchangeable cf (newOutcomesAndConditions kordf nev O C).fst.keys
           (newOutcomesAndConditions kordf nev O C).snd.keys = .ok (some c) ∧
         (newOutcomesAndConditions kordf nev O C).snd.get? c = some val ∧
-        exchangeStep cf (newOutcomesAndConditions kordf nev O C).fst c val = .ok (some O') ∧
+        exchangeStep cf (newOutcomesAndConditions kordf nev O C).fst c val
+                    ((newOutcomesAndConditions kordf nev O C).snd.filter (fun p => p.1 ≠ c)) = .ok (some O') ∧
         C' = (newOutcomesAndConditions kordf nev O C).snd.filter (fun p => p.1 ≠ c)) ∧
       ∀ fuel, idcStarO ordf dordf kordf G (fuel + 1) O C = idcStarO ordf dordf kordf G fuel O' C' := by
   cases h1 : line1 (idStar ordf dordf G C) with
@@ -82,7 +83,8 @@ theorem idcStarO_step (hk : SubsetOrder kordf) (hord : PermOrder ordf) (hG : G.W
             | none =>
               left; intro fuel; unfold idcStarO; rw [h1]; simp only; rw [hcg]; simp only; rw [hf]; simp only; rw [hg]; rfl
             | some val =>
-              cases hx0 : exchangeStep cf (newOutcomesAndConditions kordf nev O C).fst c val with
+              cases hx0 : exchangeStep cf (newOutcomesAndConditions kordf nev O C).fst c val
+                    ((newOutcomesAndConditions kordf nev O C).snd.filter (fun p => p.1 ≠ c)) with
               | error err =>
                 left; intro fuel; unfold idcStarO; rw [h1]; simp only; rw [hcg]; simp only; rw [hf]; simp only; rw [hg]
                 simp only; rw [hx0]; rfl
@@ -92,7 +94,7 @@ theorem idcStarO_step (hk : SubsetOrder kordf) (hord : PermOrder ordf) (hG : G.W
                 left; intro fuel; unfold idcStarO; rw [h1]; simp only; rw [hcg]; simp only; rw [hf]; simp only; rw [hg]
                 simp only; rw [hx0]; rfl
                | some no' =>
-                have hx := exchangeStep_some _ _ _ _ _ hx0
+                have hx := exchangeStep_some _ _ _ _ _ _ hx0
                 right
                 set no := (newOutcomesAndConditions kordf nev O C).fst with hno
                 set nc := (newOutcomesAndConditions kordf nev O C).snd with hnc
@@ -307,7 +309,8 @@ theorem idcStarO_mono : ∀ (fuel : Nat) (O C : Event) (r : Except Err Expr),
               | some val =>
                 rw [hg] at h
                 simp only at h ⊢
-                cases hx : exchangeStep cf (newOutcomesAndConditions kordf nev O C).fst c val with
+                cases hx : exchangeStep cf (newOutcomesAndConditions kordf nev O C).fst c val
+                    ((newOutcomesAndConditions kordf nev O C).snd.filter (fun p => p.1 ≠ c)) with
                 | error err => rw [hx] at h; exact h
                 | ok on =>
                   rw [hx] at h
